@@ -520,6 +520,13 @@ ssize_t __wrap_read(int fd, void *buf, size_t count)
 		return -1;
 	}
 	SimFd &f = it->second;
+	if (f.nonblock && g_fd.as_fifo && !f.eagain_given)
+	{
+		// whoever asks for non-blocking reads on a pipe gets what a pipe does: "no data yet" before the producer has written
+		f.eagain_given = true;
+		errno = EAGAIN;
+		return -1;
+	}
 	const std::string &c = g_fd.files[f.path];
 	size_t rem = f.pos < c.size() ? c.size() - f.pos : 0;
 	if (rem == 0)
@@ -594,8 +601,10 @@ int __wrap_open(const char *path, int flags, ...)
 		return -1;
 	}
 	int acc = flags & O_ACCMODE;
-	return g_fd.open_sim(path, acc == O_RDONLY || acc == O_RDWR, acc == O_WRONLY || acc == O_RDWR,
-	                     (flags & O_TRUNC) != 0, (flags & O_CREAT) != 0);
+	int fd = g_fd.open_sim(path, acc == O_RDONLY || acc == O_RDWR, acc == O_WRONLY || acc == O_RDWR, (flags & O_TRUNC) != 0, (flags & O_CREAT) != 0);
+	if (fd >= 0 && (flags & O_NONBLOCK))
+		g_fd.fds[fd].nonblock = true;
+	return fd;
 }
 // fstat / lseek on simulated descriptors (a library may size its buffer from st_size, or skip to the current offset)
 static int sim_fstat_common(int fd, mode_t *mode, off_t *size)
